@@ -702,6 +702,15 @@ func (g *lgEngine) factsAtInstr(in ssa.Instruction) []linExpr {
 			out = append(out, x.add(y, -1))
 		case token.EQL:
 			out = append(out, y.add(x, -1), x.add(y, -1))
+		case token.NEQ:
+			// x != y where one side is provably the smallest value the other can take: x ≥ y  ⇒  x − y − 1 ≥ 0
+			if d := x.add(y, -1); provenNonNeg(d) {
+				d.c--
+				out = append(out, d)
+			} else if d := y.add(x, -1); provenNonNeg(d) {
+				d.c--
+				out = append(out, d)
+			}
 		}
 	}
 	return out
